@@ -22,6 +22,10 @@ OUT=/tmp/seedcheck/$NAME.suite.txt
 tail -1 "$OUT"
 N=$(grep -c '^FAILED\|^ERROR' "$OUT")
 NEW=$(grep '^FAILED\|^ERROR' "$OUT" | grep -v 'test_csv_encoding_detection_greek\|test_excel_strange_dates\|test_make_formula_body\|test_formula_errors\|test_missing_all_attribute\|test_missing_all_iteration\|test_make_module_text\|test_traceback_available_for_trigger_formula')
+if [ "$NEW" = "FAILED sandbox/grist/test_lookup_perf.py::TestLookupPerformance::test_non_quadratic" ]; then
+  # timing-based test: re-run alone on the loaded machine
+  (cd "$W" && PYTHONPATH=/verif/shim /venv/bin/python -m pytest -q -p no:cacheprovider sandbox/grist/test_lookup_perf.py >/dev/null 2>&1) && NEW=""
+fi
 if [ -n "$NEW" ]; then echo "$NAME: NEW TEST FAILURES: $NEW"; exit 1; fi
 # pinned baseline subset is included in the above (same tests, stub only adds passing ones)
 mkdir -p /verif/seeded/$NAME
